@@ -156,3 +156,46 @@ def run(ctx):
             if a_ != b_ or a_ != w_:
                 ctx.fail('clifford_rotation_map', 'through the mask %s the map built from a generator and the rotation itself act differently (map %s, rotation %s, conjugation %s)' % (idx, a_, b_, w_),
                          dict(G=Gop, idx=idx, P=Q))
+    # single operators (Pauli, PauliMonomial) through a mask, with Y letters outside the masked qubits; and maps applied through
+    # gates whose qubits are listed in any order: the mask convention is order-blind (the k-th masked qubit in ascending order
+    # is wire k of the map), so gate.forward must agree with the map embedded by identity_map(N).embed(map, mask(qubits))
+    CI = impl.CI
+    for _ in range(ctx.budget(150, 2000)):
+        n = rng.choice([2, 3, 3, 4, 5])
+        k = rng.randrange(1, n)
+        idx = sorted(rng.sample(range(n), k))
+        m = np.array([i in idx for i in range(n)])
+        rows = G.rand_map_ops(rng, k)
+        letters = [rng.choice('IXYZ') for _i in range(n)]
+        for i in range(n):
+            if i not in idx and rng.random() < 0.6:
+                letters[i] = 'Y'
+        P = (tuple(letters), rng.randrange(4))
+        want = H.map_apply_masked(rows, idx, P)
+        ctx.case(('single-masked', tuple(rows), tuple(idx), P), True, sample=dict(op='Pauli.transform_by(mask)', mask=idx, P=P))
+        ctx.count('single-masked:outsideY=%d' % sum(1 for i in range(n) if i not in idx and letters[i] == 'Y'))
+        try:
+            got1 = impl.ops_of(impl.pauli(P).transform_by(impl.cmap(rows), m))
+            mono = pc.PauliMonomial(impl.garr(P[0]), P[1]).set_c(0.5 - 2j)
+            mono.transform_by(impl.cmap(rows), m)
+            got2 = (O.from_gp(mono.g, mono.p), complex(mono.c))
+            order = list(idx); rng.shuffle(order)
+            gate = CI.CliffordGate(*order); gate.set_forward_map(impl.cmap(rows))
+            got3 = impl.ops_of(gate.forward(impl.plist([P])))[0]
+            got4 = impl.ops_of(gate.forward(impl.pauli(P)))
+            gate2 = CI.CliffordGate(*order); gate2.set_forward_map(impl.cmap(rows))
+            inv_rows = impl.ops_of(impl.cmap(rows).inverse())
+            got5 = impl.ops_of(gate2.backward(impl.plist([P])))[0]
+        except Exception as e:
+            ctx.fail('transform_by(mask)', 'implementation raised %r' % e, dict(map=rows, idx=idx, P=P)); continue
+        if got1 != want:
+            ctx.fail('Pauli.transform_by(mask)', 'a single operator transformed through a mask is not the image under the embedded map (Y letters outside the mask: %d)'
+                     % sum(1 for i in range(n) if i not in idx and letters[i] == 'Y'), dict(map=rows, idx=idx, P=P, got=got1, want=want))
+        if got2 != (want, 0.5 - 2j):
+            ctx.fail('PauliMonomial.transform_by(mask)', 'a monomial transformed through a mask: wrong image or coefficient touched', dict(map=rows, idx=idx, P=P, got=str(got2), want=str(want)))
+        if got3 != want or got4 != want:
+            ctx.fail('CliffordGate.forward', 'a map gate with qubits listed as %s does not act as its map embedded on the masked qubits in ascending order (the convention of mask / embed / compile)' % (order,),
+                     dict(map=rows, qubits=order, P=P, got_list=got3, got_pauli=got4, want=want))
+        if got5 != H.map_apply_masked(inv_rows, idx, P):
+            ctx.fail('CliffordGate.backward', 'a map gate with qubits listed as %s run backward does not act as the inverse map embedded on the masked qubits' % (order,),
+                     dict(map=rows, qubits=order, P=P, got=got5))
